@@ -63,10 +63,16 @@ def sites(path, text):
     return out
 
 def run(cmd, cwd, timeout, env=None):
+    # own process group, killed as a whole on timeout: a mutant that loops forever must not leave
+    # its test binary running
+    p = subprocess.Popen(cmd, cwd=cwd, shell=True, stdout=subprocess.PIPE, stderr=subprocess.STDOUT, text=True, env=env, start_new_session=True)
     try:
-        p = subprocess.run(cmd, cwd=cwd, shell=True, capture_output=True, text=True, timeout=timeout, env=env)
-        return p.returncode, p.stdout + p.stderr
+        out, _ = p.communicate(timeout=timeout)
+        return p.returncode, out
     except subprocess.TimeoutExpired:
+        import signal
+        os.killpg(p.pid, signal.SIGKILL)
+        p.communicate()
         return 124, 'timeout'
 
 def main():
